@@ -211,7 +211,7 @@ func opName(o hx.Op) string {
 	return o.Kind
 }
 
-// tieFloors records which ordering situations a selected hook list exercises.
+// orderFloors records which ordering situations a selected hook list exercises.
 func orderFloors(c *core.Ctx, hooks []hx.HookSpec, op string, r refResult) {
 	if len(r.Ran) < 2 {
 		return
